@@ -24,6 +24,23 @@ def find_caches (K):
       resets = [F for F in K.methods.values() if any(isinstance(t, ast.Attribute) and norm(t.value) == 'self' and t.attr == C and isinstance(v, ast.Constant) and v.value is None
                                                       for t, v, st, k in q.stores_in(F.node)) and F.name != '__init__']
       out.append((C, M, resets))
+    # a memo table: `r = self.C.get(key)` ... `self.C[key] = <computed>` in one method; it is reset by whoever clears or re-creates it
+    got = set(); put = set()
+    for c in calls_in(M.node, nested=True):
+      if call_name(c) == 'get' and isinstance(c.func, ast.Attribute) and isinstance(c.func.value, ast.Attribute) and norm(c.func.value.value) == 'self': got.add(c.func.value.attr)
+    for n in ast.walk(M.node):
+      if isinstance(n, ast.Compare) and len(n.ops) == 1 and isinstance(n.ops[0], (ast.In, ast.NotIn)) and isinstance(n.comparators[0], ast.Attribute) and norm(n.comparators[0].value) == 'self': got.add(n.comparators[0].attr)
+    for t, v, st, k in q.stores_in(M.node):
+      if isinstance(t, ast.Subscript) and isinstance(t.value, ast.Attribute) and norm(t.value.value) == 'self' and k == 'assign': put.add(t.value.attr)
+    for C in sorted(got & put):
+      if any(C == c_ for c_, m_, r_ in out): continue
+      resets = []
+      for F in K.methods.values():
+        if F.name == '__init__' or F is M: continue
+        clears = any(call_name(c) == 'clear' and isinstance(c.func, ast.Attribute) and isinstance(c.func.value, ast.Attribute) and c.func.value.attr == C and norm(c.func.value.value) == 'self' for c in calls_in(F.node))
+        renew = any(isinstance(t, ast.Attribute) and norm(t.value) == 'self' and t.attr == C and isinstance(v, (ast.Dict, ast.Call)) for t, v, st, k in q.stores_in(F.node))
+        if clears or renew: resets.append(F)
+      out.append((C, M, resets))
   return out
 
 def _callee_fields (repo, names, depth=0):
